@@ -744,6 +744,13 @@ fn run_newboxed(ctx: &mut Ctx, a: &[Arg]) {
             let h: Multiboot2BasicHeader = unsafe { core::ptr::read_unaligned(hb.as_ptr().cast()) };
             return newboxed(ctx, h, &slices, 8);
         }
+        5 => {
+            // a user-defined 12-byte header
+            assert!(hb.len() == 12, "harness: header bytes");
+            let w = |i: usize| u32::from_le_bytes([hb[i], hb[i + 1], hb[i + 2], hb[i + 3]]);
+            let h = crate::dom_common::U12Header { typ: w(0), size: w(4), extra: w(8) };
+            return newboxed(ctx, h, &slices, 4);
+        }
         _ => {}
     }
     assert!(hb.len() == 8, "harness: header bytes");
